@@ -61,7 +61,7 @@ def stepOp : Op → M Unit
     let s ← getS
     updK fun k => k.advance ms (s.sleepers.map (·.deadline))
   | .die pid st => updK fun k => k.die pid st
-  | .xkill pid sig => do let _ ← kKill pid sig "x"
+  | .xkill pid sig => xKill pid sig
   | .fault n pid st => updK fun k => k.addFault n pid st
   | .sockev b => setSockReady b
 
